@@ -63,7 +63,7 @@ class Interner:
         return "\n".join(f"Definition {n} : string := {q(s)}." for s, n in self.tab.items())
 
 # ----------------------------------------------------------------------------- coqc shards
-def ensure_built(timeout=2400):
+def ensure_built(prop_id=None, timeout=2400):
     """make the Coq development (no-op when .vo files are current). Returns (ok, log).
     Serialised with a file lock so that concurrently running checks do not race in make."""
     import fcntl
@@ -79,8 +79,18 @@ def ensure_built(timeout=2400):
             if r.returncode != 0:
                 return False, r.stdout + r.stderr
             open(listed, "w").write("\n".join(vfiles))
+        # build what this property needs: its property file (and through it the model and proof files)
+        # and every correspondence checker file
+        targets = []
+        if prop_id and os.environ.get("VERIF_BUILD_ALL") != "1":
+            src = ""
+            mp = os.path.join(VERIF, "harness", "props", prop_id.lower() + ".py")
+            if os.path.exists(mp):
+                src = open(mp).read()
+            used = set(re.findall(r"Puan\.(Corr\w*)", src)) | {"Corr"}
+            targets = [f"theories/Properties/{prop_id}.vo"] + [v[:-2] + ".vo" for v in vfiles if os.path.basename(v)[:-2] in used]
         try:
-            r = subprocess.run(["make", f"-j{NPROC}"], cwd=COQ, capture_output=True, text=True, timeout=timeout)
+            r = subprocess.run(["make", f"-j{NPROC}"] + targets, cwd=COQ, capture_output=True, text=True, timeout=timeout)
         except subprocess.TimeoutExpired:
             return False, "make timed out"
         return r.returncode == 0, r.stdout[-4000:] + r.stderr[-4000:]
